@@ -63,6 +63,9 @@ def history(ctx, case):
                 ctx.check('destruction closes the connection at that address', not before[cur[-1]][0].is_open())
         # everything else untouched
         conns = w.manager.connections()
+        ctx.check('as many connections as the reference history has (none opened or re-opened behind libwayland\'s back)', len(conns) == len(ref))
+        if len(conns) != len(ref):
+            return
         for i, (c, was_open, nmsg, role, name) in enumerate(before):
             exp = ref[i]
             ctx.check('open flag of every connection as per the reference history', c.is_open() == exp[1])
@@ -76,6 +79,48 @@ def history(ctx, case):
             ctx.check('each connection is announced once and reported closed exactly when it was destroyed (once)', len(news) == 1 and len(closed) == (0 if ref[i][1] else 1))
 
 
+def binds(ctx, case):
+    """two connections (the second at another address, or at the same address after the first was destroyed or not) each create their registry
+    and bind the SAME object id to possibly different interfaces; an object argument then mentions it: nothing leaves stop(), and each
+    connection's table holds its own object of its own interface"""
+    from harness import gdbworld
+    from harness.gdbworld import Closure
+    w = gdbworld.make_plugin()
+    second_addr = ctx.choose([ADDRS[1], ADDRS[0]], 'second_address')
+    destroy_between = ctx.choose([True, False], 'first_destroyed') if second_addr == ADDRS[0] else ctx.choose([False, True], 'first_destroyed')
+    ifaces = (ctx.choose(['wl_a', 'wl_b'], 'iface0'), ctx.choose(['wl_b', 'wl_a'], 'iface1'))
+    threads = (1, ctx.choose([1, 2], 'thread1'))
+    oid = ctx.choose([3, 4278190081], 'object_id')
+
+    def session(k, addr):
+        rets = []
+        rets.append(gdbworld.fire_closure(w, addr, threads[k], Closure('get_registry', 'n', [{'code': 'n', 'id': 2, 'proxy_id': 2, 'type': 'wl_registry'}], None, 1), True))
+        rets.append(gdbworld.fire_closure(w, addr, threads[k], Closure('bind', 'usun', [{'code': 'u', 'value': 1}, {'code': 's', 'value': ifaces[k]}, {'code': 'u', 'value': 1},
+                                                                                       {'code': 'n', 'id': oid, 'proxy_id': oid, 'type': None}], None, 2), True))
+        rets.append(gdbworld.fire_closure(w, addr, threads[k], Closure('poke', 'o', [{'code': 'o', 'null': False, 'id': oid, 'type': None}], None, oid), True))
+        return rets
+    r0 = session(0, ADDRS[0])
+    c0 = w.manager.connections()[-1] if w.manager.connections() else None
+    if destroy_between:
+        gdbworld.fire_destroy(w, ADDRS[0], 1)
+    if second_addr == ADDRS[0] and not destroy_between:
+        # same connection goes on: a second bind of the same id is ill-formed; use another id for it
+        return
+    r1 = session(1, second_addr)
+    ctx.check('stop() keeps the program running for every message', all(r is False for r in r0 + r1))
+    ctx.check('no Error: line', not any('Error' in e for e in w.err.items))
+    conns = w.manager.connections()
+    ctx.check('two connections', len(conns) == 2)
+    if len(conns) != 2:
+        return
+    for k, c in enumerate(conns):
+        objs = c.db.get(oid) or []
+        ctx.check('connection %d: its table holds ONE object with the bound id, of the interface IT bound' % k, len(objs) == 1 and objs[0].type == ifaces[k])
+        ctx.check('connection %d: three messages, all attributed to objects of this connection' % k, len(c.messages()) == 3 and all(m.obj.resolved() and m.obj.connection is c for m in c.messages()))
+        if len(c.messages()) == 3 and objs:
+            ctx.check('connection %d: the mention goes to its own object' % k, c.messages()[2].args[0].obj is objs[0] and c.messages()[2].obj is objs[0])
+
+
 def twin(ctx, case):
     history(ctx, case)
     ctx.check('reachability twin (must be violated)', False)
@@ -86,4 +131,7 @@ def obligations(tier):
     bounds = 'all sequences of <= %d events from %d event kinds (2 addresses x 2 threads x 4 message kinds, destroy of either address)' % (ns[-1], len(EVENTS))
     return [Ob('event-histories', 'symx', 'libwayland event sequences through the real plugin vs a reference connection history', FUNCS, bounds, history, cases=ns,
                stubs=['fake gdb', 'time_now stubbed'], budget_s=2400),
+            Ob('binds-on-two-connections', 'symx', 'two connections bind the same id (client or server range) to the same or different interfaces, then mention it: own table, own interface, nothing leaves stop()',
+               FUNCS + ['backends.gdb_plugin.extract:extract_message', 'core.wl.message:Message.resolve', 'core.wl.arg:Arg.Object.set_type'],
+               '2 addresses (other / same after destroy) x 2 x 2 interfaces x 2 threads x 2 ids', binds, cases=[None]),
             Ob('event-histories-reachable', 'symx', 'reachability twin', FUNCS, bounds, twin, cases=[2], expect_cex=True)]
